@@ -37,6 +37,15 @@ let kinds = [
                 | _ -> r) };
 ]
 
+(* a metric of the real size C(k,2) of a street must be written to, and come back from, that street's file *)
+let () =
+  register "mstreet" (fun i o ->
+    (if o.(0) = i.(1) then [] else
+       [Specfail ("c17_metric_file_of_its_street", Printf.sprintf "a metric of %s entries (street %s) was written to the file of street %s" i.(2) i.(1) o.(0))])
+    @ (if o.(1) = "1" then [] else
+         [Specfail ("c17_metric_loads_from_its_street", Printf.sprintf "a metric of %s entries saved; Metric::load(street %s) %s" i.(2) i.(1)
+                      (if o.(1) = "P" then "fails" else "returns something else"))]))
+
 let () =
   register "pg" (fun i o ->
     let fails = ref [] in
